@@ -5,16 +5,17 @@ import numpy as np
 
 def linear_regression(data, weights, pattern1, pattern2):
 
-    c1 = np.sum(data * pattern1 * weights, axis=1)
-    c2 = np.sum(data * pattern2 * weights, axis=1)
-    m11 = np.sum(pattern1 * pattern1 * weights)
-    m12 = np.sum(pattern1 * pattern2 * weights)
+    # The 2x2 normal equations are not solved directly: with very unequal
+    # weights their determinant m11 * m22 - m12 ** 2 loses all its digits.
+    # Instead, the part of pattern1 that is orthogonal to pattern2 (for the
+    # weighted scalar product) is used, which gives the same solution.
     m22 = np.sum(pattern2 * pattern2 * weights)
+    beta = np.sum(pattern1 * pattern2 * weights) / m22
+    ortho1 = pattern1 - beta * pattern2
 
-    inv_det = 1. / (m11 * m22 - m12 * m12)
-
-    p1 = (m22 * c1 - m12 * c2) * inv_det
-    p2 = (m11 * c2 - m12 * c1) * inv_det
+    p1 = (np.sum(data * ortho1 * weights, axis=1) /
+          np.sum(ortho1 * ortho1 * weights))
+    p2 = np.sum(data * pattern2 * weights, axis=1) / m22 - beta * p1
 
     return p1, p2
 
